@@ -348,6 +348,8 @@ def rewrite_body(body, mode, stats):
     body = rewrite_str_match(body, stats)
     # R19: `loop { if C { break; } REST }` -> `while !(C) { REST }` (the same loop; loop specifications are written for the `while` form)
     body = rewrite_loop_leading_break(body, stats)
+    # R20: locally bound closures that are only called are beta-reduced (a closure's result is opaque to this verifier)
+    body = rewrite_local_closures(body, stats)
     # R9: unwrap -> unwrap_or_abort (partial mode)
     if mode == 'partial':
         body = apply_counted(r'\.unwrap\(\)', '.unwrap_or_abort()', body, stats, 'R9_unwrap')
@@ -393,6 +395,85 @@ def rewrite_loop_leading_break(body, stats):
             break
         if not done:
             break
+    return out
+
+
+def rewrite_local_closures(body, stats):
+    """R20: a closure bound by `let f = |p1: T1, ..| [-> R] BODY;` that is only ever CALLED (`f(a1, ..)`) is beta-reduced at each call:
+    `{ let __c_f_1: T1 = a1; ..; { let p1: T1 = __c_f_1; ..; let __c_f_r[: R] = BODY; __c_f_r } }` and the binding is removed. Not
+    `move` (a by-reference capture cannot change between the binding and the calls, the borrow checker sees to that), no `return` and
+    no `?` in BODY (they would leave the closure, not the function), no later `let` that shadows a name BODY uses. Anything else keeps
+    the closure and the function leaves the subset (degraded mode)."""
+    out = strip_comments(body) if re.search(r'\blet\s+\w+\s*=\s*\|', strip_comments(body)) else None
+    if out is None:
+        return body
+    for _ in range(6):
+        ms = list(code_positions(out, r'\blet\s+(\w+)\s*=\s*\|([^|]*)\|\s*(->\s*[^{;]+?(?=\s*\{))?\s*(?=\S)'))
+        if not ms:
+            break
+        m = ms[0]
+        name, params, ret = m.group(1), m.group(2), (m.group(3) or '').replace('->', '').strip()
+        k = m.end()
+        if out[k] == '{':
+            e = match_close(out, k)
+            cbody = out[k:e + 1]
+            q = e + 1
+            mm = re.match(r'\s*;', out[q:])
+            if not mm:
+                return body
+            stmt_end = q + mm.end()
+        else:
+            if ret:
+                return body
+            q, d = k, 0
+            while q < len(out):
+                kk = skip_noncode(out, q)
+                if kk is not None:
+                    q = kk; continue
+                if out[q] in '([{':
+                    d += 1
+                elif out[q] in ')]}':
+                    d -= 1
+                elif out[q] == ';' and d == 0:
+                    break
+                q += 1
+            if q >= len(out):
+                return body
+            cbody = out[k:q].strip()
+            stmt_end = q + 1
+        if re.search(r'\breturn\b|\?', cbody):
+            return body
+        plist = []
+        for prm in split_top_commas(params):
+            pm = re.fullmatch(r'(?:mut\s+)?(\w+)\s*(?::\s*(.+))?', prm.strip(), re.S)
+            if not pm or pm.group(1) == '_':
+                return body
+            plist.append((pm.group(1), (pm.group(2) or '').strip()))
+        rest = out[stmt_end:]
+        # every later occurrence of the name is a call
+        uses = list(code_positions(rest, r'(?<![\w.])' + re.escape(name) + r'\b'))
+        if not uses or any(not re.match(r'\s*\(', rest[u.end():]) for u in uses):
+            return body
+        if re.search(r'(?<![\w.])' + re.escape(name) + r'\b', out[:m.start()]):
+            pass    # an earlier binding of the same name is shadowed by this one; calls after it mean this one
+        body_idents = set(re.findall(r'\b[a-z_]\w*\b', cbody)) - {pn for pn, _ in plist}
+        later_lets = set(re.findall(r'\blet\s+(?:mut\s+)?(\w+)', rest))
+        if body_idents & later_lets:
+            return body
+        # replace calls back to front
+        new_rest = rest
+        for u in reversed(uses):
+            ob = u.end() + re.match(r'\s*', new_rest[u.end():]).end()
+            cb = match_close(new_rest, ob, '(', ')')
+            args = split_top_commas(new_rest[ob + 1:cb])
+            if len(args) != len(plist):
+                return body
+            pre = ''.join('let __c_%s_%d%s = %s; ' % (name, i_, (': ' + t_) if t_ else '', a_) for i_, ((pn, t_), a_) in enumerate(zip(plist, args)))
+            inner = ''.join('let %s%s = __c_%s_%d; ' % (pn, (': ' + t_) if t_ else '', name, i_) for i_, (pn, t_) in enumerate(plist))
+            rep = '({ %s{ %slet __c_%s_r%s = %s; __c_%s_r } })' % (pre, inner, name, (': ' + ret) if ret else '', cbody, name)
+            new_rest = new_rest[:u.start()] + rep + new_rest[cb + 1:]
+        out = out[:m.start()] + '/* R20: closure ' + name + ' beta-reduced at its calls */' + new_rest
+        stats['R20_local_closure'] = stats.get('R20_local_closure', 0) + 1
     return out
 
 
@@ -565,25 +646,48 @@ def inline_helper(unit, rel, body, helper):
                 if f.endswith('.rs'):
                     cands.append(os.path.join(pk, f))
     found = None
+    tname, fname = (helper.split('.') + [None])[:2] if '.' in helper else (None, helper)
     for c in cands:
         try:
             src = unit.read_repo(c)
-            ls, bo, be = find_fn(src, helper)
-            found = (c, src, ls, bo, be)
-            break
         except AssembleError:
             continue
+        if tname is None:
+            try:
+                ls, bo, be = find_fn(src, fname)
+                found = (c, src, ls, bo, be)
+                break
+            except AssembleError:
+                continue
+        # a method `T.m`: look in every inherent `impl T { .. }` block
+        for im in code_positions(src, r'\bimpl\s+' + re.escape(tname) + r'\s*\{'):
+            b0 = im.end() - 1
+            e0 = match_close(src, b0)
+            try:
+                ls, bo, be = find_fn(src, fname, b0 + 1, e0)
+                found = (c, src, ls, bo, be)
+                break
+            except AssembleError:
+                continue
+        if found:
+            break
     if not found:
         raise AssembleError('inline %s: no unique definition found' % helper)
     c, src, ls, bo, be = found
     sig = src[ls:bo]
     hbody = src[bo:be + 1]
-    m = re.search(r'\bfn\s+' + re.escape(helper) + r'\s*(<[^>]*>)?\s*\(', sig)
+    m = re.search(r'\bfn\s+' + re.escape(fname) + r'\s*(<[^>]*>)?\s*\(', sig)
     if not m or m.group(1):
         raise AssembleError('inline %s: generic function' % helper)
     po = sig.index('(', m.start())
     pc = match_close(sig, po, '(', ')')
     params = split_top_commas(sig[po + 1:pc])
+    self_kind = None
+    if tname is not None:
+        if not params or not re.fullmatch(r'&\s*self|self', params[0].strip()):
+            raise AssembleError('inline %s: receiver %r' % (helper, params[:1]))
+        self_kind = 'ref' if params[0].strip().startswith('&') else 'val'
+        params = params[1:]
     if any(re.match(r'(&\s*(mut\s+)?)?self\b', p_) for p_ in params):
         raise AssembleError('inline %s: method' % helper)
     plist = []
@@ -591,20 +695,32 @@ def inline_helper(unit, rel, body, helper):
         pm = re.match(r'(mut\s+)?(\w+)\s*:\s*(.+)$', p_, re.S)
         if not pm or 'impl ' in pm.group(3):
             raise AssembleError('inline %s: parameter %r' % (helper, p_))
-        plist.append((pm.group(1) or '', pm.group(2), norm_ws(pm.group(3))))
+        # (`&dyn Api` is the shim's struct `Api`, as in the DepsMut/Deps shim)
+        plist.append((pm.group(1) or '', pm.group(2), re.sub(r'\bdyn\s+Api\b', 'Api', norm_ws(pm.group(3)))))
     hbody = guard_clauses_to_else(strip_comments(hbody))
     code = strip_comments(hbody)
     mret_ = re.search(r'\)\s*->\s*(.+?)\s*(?:where\b.*)?$', sig.strip(), re.S)
     ret_ty = norm_ws(mret_.group(1)) if mret_ else '()'
+    if tname is not None:
+        ret_ty = re.sub(r'\bSelf\b', tname, ret_ty)
     if re.search(r'\breturn\b', code):
         raise AssembleError('inline %s: the helper has an early return' % helper)
     if re.search(r'\b(loop|while|for)\b', code):
         raise AssembleError('inline %s: the helper has a loop' % helper)
-    if re.search(r'(?<![\w])' + re.escape(helper) + r'\s*\(', code):
+    if re.search(r'(?<![\w])' + re.escape(fname) + r'\s*\(', code):
         raise AssembleError('inline %s: recursive' % helper)
     has_q = '?' in code
     out, pos, n = [], 0, 0
-    sites = list(code_positions(body, r'(?<![\w.:])' + re.escape(helper) + r'\s*\('))
+    hid = helper.replace('.', '_')
+    if tname is None:
+        sites = list(code_positions(body, r'(?<![\w.:])' + re.escape(fname) + r'\s*\('))
+    else:
+        # `recv.m(..)` with a plain place expression as the receiver (identifier and field path); any other call of `.m(` keeps the
+        # method un-inlined (the function then leaves the subset)
+        sites = list(code_positions(body, r'(?<![\w.)\]?])([a-z_]\w*(?:\s*\.\s*[a-z_]\w*)*)\s*\.\s*' + re.escape(fname) + r'\s*\('))
+        if len(sites) != len(list(code_positions(body, r'\.\s*' + re.escape(fname) + r'\s*\('))):
+            raise AssembleError('inline %s: a call with a receiver that is not a plain place expression' % helper)
+        hbody = re.sub(r'\bSelf\b', tname, hbody)
     if not sites:
         raise AssembleError('inline %s: no call site' % helper)
     for sm in sites:
@@ -621,11 +737,16 @@ def inline_helper(unit, rel, body, helper):
         is_tail = after == '}' or re.search(r'\breturn\s*$', body[:sm.start()]) is not None
         if has_q and not (after.startswith('?') or is_tail):
             raise AssembleError('inline %s: the helper uses `?` and a call site is not followed by `?`' % helper)
-        pre = ' '.join('let __%s_%d_%d: %s = %s;' % (helper, n, k, t, a) for k, ((mu, nm, t), a) in enumerate(zip(plist, args)))
-        inner = ' '.join('let %s%s: %s = __%s_%d_%d;' % (mu, nm, t, helper, n, k) for k, (mu, nm, t) in enumerate(plist))
+        pre = ' '.join('let __%s_%d_%d: %s = %s;' % (hid, n, k, t, a) for k, ((mu, nm, t), a) in enumerate(zip(plist, args)))
+        inner = ' '.join('let %s%s: %s = __%s_%d_%d;' % (mu, nm, t, hid, n, k) for k, (mu, nm, t) in enumerate(plist))
+        hb = hbody
+        if tname is not None:
+            sv = '__%s_%d_self' % (hid, n)
+            pre = ('let %s: &%s = &(%s); ' % (sv, tname, sm.group(1)) if self_kind == 'ref' else 'let %s: %s = %s; ' % (sv, tname, sm.group(1))) + pre
+            hb = re.sub(r'\bself\b', sv, hbody)
         out.append(body[pos:sm.start()])
         # (the result gets the helper's declared return type, as the call expression had)
-        out.append('{ let __%s_%d_r: %s = { %s { %s %s } }; __%s_%d_r }' % (helper, n, ret_ty, pre, inner, hbody, helper, n))
+        out.append('{ let __%s_%d_r: %s = { %s { %s %s } }; __%s_%d_r }' % (hid, n, ret_ty, pre, inner, hb, hid, n))
         pos = ac + 1
         n += 1
     out.append(body[pos:])
